@@ -25,4 +25,19 @@ QRepGrids(D) ==
     ELSE {GG(<<4, 5, 3>>, <<One, R(3,2), R(1,2)>>, <<RI(2), RI(-1), One>>, QuatMat(<<2,1,0,0>>), TRUE),
           GG(<<3, 4, 4>>, <<Two, One, R(1,2)>>, <<R(3,2), RI(-1), One>>, QuatMat(<<1,1,1,1>>), FALSE)}
 QWorldVecs(D) == IF D = 2 THEN {<<R(3,4), R(-1,2)>>} ELSE {<<R(3,4), R(-1,2), R(1,4)>>}
+\* ---------------------------------------------------------------- thorough lattice (denominators stay dyadic and small: 32-bit rationals)
+TShapes == QShapes \cup {<<7, 5>>, <<4, 8>>, <<5, 4, 6>>}
+TFields(D) == QFields(D) \cup
+    (IF D = 2 THEN
+        {F_(<< <<R(-1,4), R(-1,8)>>, <<R(1,8), R(-1,2)>> >>, <<R(-1,16), Zero>>),
+         F_(<< <<R(-1,8), Zero>>, <<Zero, R(-1,8)>> >>, <<R(1,8), R(1,16)>>),
+         F_(<< <<R(-1,2), Zero>>, <<R(1,4), R(-1,2)>> >>, <<Zero, Zero>>)}
+     ELSE
+        {F_(<< <<R(-1,4), R(1,8), Zero>>, <<Zero, R(-1,2), Zero>>, <<R(1,8), Zero, R(-1,4)>> >>, <<Zero, Zero, R(1,16)>>),
+         F_(<< <<R(-1,8), Zero, Zero>>, <<Zero, R(-3,8), Zero>>, <<Zero, Zero, R(-1,2)>> >>, <<R(-1,16), R(1,16), Zero>>)})
+TRepGrids(D) == QRepGrids(D) \cup
+    (IF D = 2 THEN {GG(<<4, 7>>, <<R(3,4), R(5,4)>>, <<RI(2), R(-1,2)>>, FlipX(Rot2Of(CS_5_13)), TRUE),
+                    GG(<<8, 3>>, <<R(1,2), Two>>, <<R(3,2), RI(-1)>>, Rot2Of(CS_90), TRUE)}
+     ELSE {GG(<<5, 3, 4>>, <<R(1,2), R(3,4), One>>, <<RI(2), RI(-1), R(1,2)>>, FlipX(QuatMat(<<2,3,6,0>>)), TRUE)})
+TWorldVecs(D) == QWorldVecs(D) \cup (IF D = 2 THEN {<<RI(-1), R(1,4)>>} ELSE {<<R(-1,2), One, R(-3,4)>>})
 =============================================================================
